@@ -53,5 +53,56 @@ func allProps() []*propInfo {
 				{ID: "C03.4", Doc: "[K5] idempotent ack/nack/modify-deadline", Run: ruleC03_4},
 			},
 		},
+		{
+			ID: "C04",
+			Explanation: "Static necessary conditions of the redelivery lease: " +
+				"C04.1 the pull selection requires attempt_at <= now on every path and the next-attempt lookup does not; " +
+				"C04.2 the selection takes FOR UPDATE SKIP LOCKED on deliveries whenever the dialect is not SQLite (no other condition); " +
+				"C04.3 selection and lease update run on the same tx of one closure; each delivered element adds exactly 1 to attempts and sets attempt_at from the SAME element's deadline, which is now + NextDelayFor(sub, attempts+1) (+jitter); the update loop covers every delivered element; " +
+				"C04.4 modify-deadline carries `attempt_at < X` over the same X it sets, skipped only when Delay <= 0; C04.5 nack reschedules by now + NextDelayFor(sub, attempts); C04.6 reported attempt = attempts + 1. " +
+				"NOT decided: the numeric backoff formula, jitter bound and saturation; PostgreSQL row-lock semantics; 'handed out again once the deadline has passed'.",
+			Assumptions: []string{k1Assumption, "FOR UPDATE SKIP LOCKED / SQLite immediate transactions give exclusivity (database semantics)"},
+			Rules: []ruleFn{
+				{ID: "C04.1", Doc: "[atoms] due-only selection; lookup unrestricted", Run: ruleC04_1},
+				{ID: "C04.2", Doc: "[atoms] row lock on every non-SQLite path", Run: ruleC04_2},
+				{ID: "C04.3", Doc: "[dom][dep] lease taken in the selecting transaction, per element", Run: ruleC04_3},
+				{ID: "C04.4", Doc: "[atoms] postpone-only modify-deadline", Run: ruleC04_4},
+				{ID: "C04.5", Doc: "[dep] nack reschedules by the backoff", Run: ruleC04_5},
+				{ID: "C04.6", Doc: "[dep] reported attempt number", Run: ruleC04_6},
+			},
+		},
+		{
+			ID: "C05",
+			Explanation: "Static necessary conditions of ordered delivery: " +
+				"C05.1 the predecessor chosen at publish time belongs to the same ordering key (join messages, order_key = m.OrderKey); C05.2 the lookup is exactly 'latest non-expired delivery of this subscription' (no further restricting atom, ORDER BY published_at DESC, First); " +
+				"C05.3 the link is set whenever ordered ∧ keyed ∧ found and lookup errors other than not-found are returned; " +
+				"C05.4 every pull-side query carries the gate LEFT JOIN predecessor ∧ (no predecessor ∨ predecessor completed ∨ predecessor expired) under sub.OrderedDelivery and nothing else; " +
+				"C05.5 deliveries.not_before_id is ON DELETE SET NULL in the ent migrate schema and in the last SQL definition of the constraint. " +
+				"NOT decided: ties of published_at inside one batch, interplay with seek-to-snapshot, the history-level order itself.",
+			Assumptions: []string{k1Assumption},
+			Rules: []ruleFn{
+				{ID: "C05.1", Doc: "[atoms] predecessor of the same key; exact lookup shape (C05.2)", Run: ruleC05_1_2},
+				{ID: "C05.3", Doc: "[dom] link set when found; errors returned", Run: ruleC05_3},
+				{ID: "C05.4", Doc: "[atoms] the eligibility gate", Run: ruleC05_4},
+				{ID: "C05.5", Doc: "[tab] predecessor FK is SET NULL", Run: ruleC05_5},
+			},
+		},
+		{
+			ID: "C06",
+			Explanation: "Static necessary conditions of dead-lettering: " +
+				"C06.1 deadLetterDelivery is called only from pull, nack and the sweep; C06.2 the pull and nack call sites are dominated by HasFullDeadLetterConfig() ∧ attempts >= *MaxDeliveryAttempts, HasFullDeadLetterConfig requires max attempts set and > 0 and a topic, the sweep selects outstanding due rows past the limit of live subscriptions with a full policy; " +
+				"C06.3 after a successful dead-letter call the same iteration neither appends the delivery to the pull result nor reschedules it; " +
+				"C06.4 the source delivery (data.DeliveryID) is completed on the same tx on every successful path, the forward set is the live subscriptions of the live dead-letter topic, every one reaches deliverToSubscription, the forwarded message is the original row loaded whole by id; " +
+				"C06.5 a nack's candidates are outstanding (id IN ids, completed_at IS NULL, expires_at > now). " +
+				"NOT decided: 'exactly once' under concurrent PostgreSQL transactions, counting N over histories, topology effects.",
+			Assumptions: []string{k1Assumption},
+			Rules: []ruleFn{
+				{ID: "C06.1", Doc: "[who] callers of deadLetterDelivery", Run: ruleC06_1},
+				{ID: "C06.2", Doc: "[dom][atoms] trigger condition", Run: ruleC06_2},
+				{ID: "C06.3", Doc: "[dom] dead-lettered xor delivered/rescheduled", Run: ruleC06_3},
+				{ID: "C06.4", Doc: "[dom][who] forward and retire in one step", Run: ruleC06_4},
+				{ID: "C06.5", Doc: "[atoms] nack candidates are outstanding", Run: ruleC06_5},
+			},
+		},
 	}
 }
